@@ -196,6 +196,8 @@ func ExecMine(t *testing.T, pa any, col *kernel.Collector) []kernel.Violation {
 }
 
 func execMine(p *MinePlan, col *kernel.Collector) []kernel.Violation {
+	simStart := time.Now() // the bubble's clock: elapsed = simulated time
+	defer func() { col.AddSim(time.Since(simStart)) }()
 	ResetCrit()
 	defer InstallMapOrder(p.OrderSeed)()
 	mrand.Seed(int64(HashMinePlan(p) & 0x7fffffffffffffff))
